@@ -260,7 +260,7 @@ theorem stereoIxG_spec {tj t3 t5 : List Nat} {n a0 a1 b0 b1 : Nat} {d : Dec}
   rw [reads_cons_append] at h
   obtain ⟨h4, h5⟩ := h
   rw [after_cons_cons, after_cons_cons, after_cons_cons, after_cons_cons]
-  unfold stereoIxG
+  rw [stereoIxG]
   split
   rename_i n' c1 e1
   rw [sym_spec h1] at e1
@@ -287,7 +287,7 @@ theorem stereoDecodePred_spec {ix : List Nat} {d : Dec} (hok : PredOk ix) (h : R
     stereoDecodePred d = (stereoMk (5 * ix.getD 2 0 + ix.getD 5 0) (ix.getD 0 0) (ix.getD 1 0) (ix.getD 3 0) (ix.getD 4 0),
       after d (predOps ix)) := by
   rw [predOps_eq hok] at h ⊢
-  unfold stereoDecodePred stereoDecodePredG
+  rw [stereoDecodePred, stereoDecodePredG]
   split
   rename_i nn a0 a1 b0 b1 c5 e
   rw [stereoIxG_spec h] at e
@@ -312,5 +312,130 @@ theorem midOnly_spec {m : Nat} {d : Dec} (h : Reads d (encMidOnly m)) :
 
 theorem midOnly_legal {m : Nat} (h : m ≤ 1) : IcLegal (encMidOnly m) :=
   icLegal_ic tab_stereoMid (by omega)
+
+/-! ### Header flags -/
+
+theorem range_map_getD (l : List Nat) : (List.range l.length).map (fun i => l.getD i 0) = l := by
+  apply List.ext_getElem
+  · simp
+  · intro i h1 h2
+    simp only [List.getElem_map, List.getElem_range]
+    rw [List.getD_eq_getElem?_getD, List.getElem?_eq_getElem h2, Option.getD_some]
+
+theorem flagOps_append (a b : List Nat) : flagOps (a ++ b) = flagOps a ++ flagOps b := by
+  unfold flagOps; rw [List.map_append]
+
+theorem chanFlagBits_eq {cfg : Cfg} {c : ChanIn} (h : ChanOk cfg c) :
+    chanFlagBits cfg.nfpp c = c.vad ++ [lbrrFlagOf cfg.nfpp c.lbrrFlags] := by
+  unfold chanFlagBits lbrrFlagOf
+  rw [← h.vadLen, range_map_getD]
+
+theorem chanFlagBits_bits {cfg : Cfg} {c : ChanIn} (h : ChanOk cfg c) : AllBits (chanFlagBits cfg.nfpp c) := by
+  rw [chanFlagBits_eq h]
+  intro v hv
+  rcases List.mem_append.mp hv with hv | hv
+  · exact h.vadBits v hv
+  · rw [List.mem_singleton] at hv
+    rw [hv]; unfold lbrrFlagOf; split <;> decide
+
+theorem chanFlagBits_length {cfg : Cfg} {c : ChanIn} (h : ChanOk cfg c) : (chanFlagBits cfg.nfpp c).length = cfg.nfpp + 1 := by
+  rw [chanFlagBits_eq h, List.length_append, h.vadLen]; rfl
+
+theorem chanFlags_spec {cfg : Cfg} {c : ChanIn} {d : Dec} (h : ChanOk cfg c)
+    (hr : Reads d (flagOps (chanFlagBits cfg.nfpp c))) :
+    decodeChanFlags cfg.nfpp d = (c.vad, lbrrFlagOf cfg.nfpp c.lbrrFlags, after d (flagOps (chanFlagBits cfg.nfpp c))) := by
+  rw [chanFlagBits_eq h, flagOps_append] at hr ⊢
+  have hl : lbrrFlagOf cfg.nfpp c.lbrrFlags ≤ 1 := by unfold lbrrFlagOf; split <;> decide
+  have := decodeChanFlags_spec (vs := c.vad) (l := lbrrFlagOf cfg.nfpp c.lbrrFlags) (d := d) h.vadBits hl hr
+  rw [h.vadLen] at this
+  exact this
+
+/-- One channel's decoder state after the header flags. -/
+def hdrCh (nfpp : Nat) (c : ChanIn) (ch : Chan) : Chan :=
+  { ch with vad := c.vad, lbrrFlag := lbrrFlagOf nfpp c.lbrrFlags, lbrrFlags := lbrr3 nfpp c.lbrrFlags }
+
+/-- The decoder state after the header flags. -/
+def hdrSt (cfg : Cfg) (pk : PacketIn) (st : SilkSt) : SilkSt :=
+  { st with ch0 := hdrCh cfg.nfpp pk.ch0 st.ch0, ch1 := if cfg.nCh = 2 then hdrCh cfg.nfpp pk.ch1 st.ch1 else st.ch1 }
+
+/-- What the decoder reads for the flags: the patched bits, then the LBRR-flags symbols. -/
+def flagsOps (cfg : Cfg) (pk : PacketIn) : List Op :=
+  flagOps (headerBits cfg pk) ++
+  (lbrrSymOps cfg.nfpp pk.ch0.lbrrFlags ++ (if cfg.nCh = 2 then lbrrSymOps cfg.nfpp pk.ch1.lbrrFlags else []))
+
+theorem decodeFlags_spec {cfg : Cfg} {pk : PacketIn} (hok : PacketOk cfg pk) (st : SilkSt) {d : Dec}
+    (h : Reads d (flagsOps cfg pk)) :
+    (if cfg.nCh = 2 then decodeFlagsStereo cfg st d else decodeFlagsMono cfg st d) =
+      { st := hdrSt cfg pk st, dom := 0, c := after d (flagsOps cfg pk), evs := headerEvs cfg pk } := by
+  have h0 := hok.ch0
+  unfold flagsOps headerBits at h ⊢
+  unfold hdrSt headerEvs
+  by_cases h2 : cfg.nCh = 2
+  · have h1 := hok.ch1 h2
+    simp only [if_pos h2] at h ⊢
+    rw [flagOps_append, reads_append, reads_append, reads_append] at h
+    simp only [after_append] at h
+    obtain ⟨⟨ha, hb⟩, hc, hd⟩ := h
+    rw [flagOps_append, after_append, after_append, after_append]
+    rw [decodeFlagsStereo]
+    split
+    rename_i v0 l0 c1 e1
+    rw [chanFlags_spec h0 ha] at e1
+    obtain ⟨rfl, e1'⟩ := Prod.mk.inj e1
+    obtain ⟨rfl, rfl⟩ := Prod.mk.inj e1'
+    split
+    rename_i v1 l1 c2 e2
+    rw [chanFlags_spec h1 hb] at e2
+    obtain ⟨rfl, e2'⟩ := Prod.mk.inj e2
+    obtain ⟨rfl, rfl⟩ := Prod.mk.inj e2'
+    split
+    rename_i f0 c3 e3
+    rw [decodeLbrrFlags_spec hok.nfpp h0.lbrrBits (by rw [h0.lbrrLen]; exact Nat.le_refl _) hc] at e3
+    obtain ⟨rfl, rfl⟩ := Prod.mk.inj e3
+    split
+    rename_i f1 c4 e4
+    rw [decodeLbrrFlags_spec hok.nfpp h1.lbrrBits (by rw [h1.lbrrLen]; exact Nat.le_refl _) hd] at e4
+    obtain ⟨rfl, rfl⟩ := Prod.mk.inj e4
+    rfl
+  · simp only [if_neg h2, List.append_nil] at h ⊢
+    rw [reads_append] at h
+    rw [after_append]
+    rw [decodeFlagsMono]
+    split
+    rename_i v0 l0 c1 e1
+    rw [chanFlags_spec h0 h.1] at e1
+    obtain ⟨rfl, e1'⟩ := Prod.mk.inj e1
+    obtain ⟨rfl, rfl⟩ := Prod.mk.inj e1'
+    split
+    rename_i f0 c2 e2
+    rw [decodeLbrrFlags_spec hok.nfpp h0.lbrrBits (by rw [h0.lbrrLen]; exact Nat.le_refl _) h.2] at e2
+    obtain ⟨rfl, rfl⟩ := Prod.mk.inj e2
+    rfl
+
+theorem headerBits_bits {cfg : Cfg} {pk : PacketIn} (hok : PacketOk cfg pk) : AllBits (headerBits cfg pk) := by
+  unfold headerBits
+  intro v hv
+  rcases List.mem_append.mp hv with hv | hv
+  · exact chanFlagBits_bits hok.ch0 v hv
+  · split at hv
+    · rename_i h2; exact chanFlagBits_bits (hok.ch1 h2) v hv
+    · cases hv
+
+theorem headerBits_length {cfg : Cfg} {pk : PacketIn} (hok : PacketOk cfg pk) :
+    (headerBits cfg pk).length = (cfg.nfpp + 1) * cfg.nCh := by
+  unfold headerBits
+  rw [List.length_append, chanFlagBits_length hok.ch0]
+  rcases hok.nCh with h1 | h2
+  · rw [if_neg (by omega), h1]; simp
+  · rw [if_pos h2, chanFlagBits_length (hok.ch1 h2), h2]; omega
+
+theorem flagsOps_syms_legal {cfg : Cfg} {pk : PacketIn} (hok : PacketOk cfg pk) :
+    IcLegal (lbrrSymOps cfg.nfpp pk.ch0.lbrrFlags ++ (if cfg.nCh = 2 then lbrrSymOps cfg.nfpp pk.ch1.lbrrFlags else [])) := by
+  apply icLegal_append
+  · exact lbrrSymOps_legal hok.nfpp hok.ch0.lbrrBits (by rw [hok.ch0.lbrrLen]; exact Nat.le_refl _)
+  · split
+    · rename_i h2
+      exact lbrrSymOps_legal hok.nfpp (hok.ch1 h2).lbrrBits (by rw [(hok.ch1 h2).lbrrLen]; exact Nat.le_refl _)
+    · exact icLegal_nil
 
 end Opus.SilkSymsEncProofs
